@@ -54,6 +54,8 @@ func ConcClassify(point string) string {
 		return "inside"
 	case "gcs.unlocked":
 		return "after"
+	case "gcs.validated":
+		return "mid" // the precondition has been checked, the store not yet changed
 	}
 	// The file store's own yield points (between its separate file operations) are not parking
 	// points of the general exploration: since the store serialises its operations a goroutine
